@@ -6,6 +6,9 @@ are lists of per-agent actions `< 6` (the action spec), one per agent.
 -/
 import JumanjiModel.Env.LBF.Lemmas
 import JumanjiModel.Env.LBF.Bounds
+import JumanjiModel.Env.LBF.Gen
+import JumanjiModel.Env.LBF.Episode
+import JumanjiModel.Env.LBF.Reward
 open Jm Jx LBF
 
 namespace Props.C04
@@ -48,6 +51,44 @@ theorem lbf_illegal_no_share (cfg : Cfg) (s : State) (hw : WF s) (as : List Nat)
     (adjLevels (updateAgents cfg.gridSize s.agents s.foods (as.map Int.ofNat)) f).getD i 0 = 0 :=
   illegal_no_share cfg s hw as hlen has i hi hl f hf
 
+/-- HEADLINE (no penalty): the reward of an agent whose action is illegal is exactly 0, whatever the other agents
+do in the same step -/
+theorem lbf_illegal_no_reward (cfg : Cfg) (hp : cfg.penalty = 0) (s : State) (hw : WF s) (as : List Nat)
+    (hlen : as.length = s.agents.length) (has : ∀ a ∈ as, a < 6) (i : Nat) (hi : i < s.agents.length)
+    (hl : ¬ legal cfg.gridSize s i (as[i]'(by omega))) :
+    ((step cfg s (as.map Int.ofNat)).2.reward).getD i 0 = 0 :=
+  illegal_no_reward cfg hp s hw as hlen has i hi hl
+
+/-- any penalty: the reward of an illegally acting agent is exactly minus the charges of this step — `charge` =
+`penalty` for every food somebody tried to load without sufficient levels (a failed attempt by the rules, `failedAttempt`
+on the agents after the move), divided by that food's normaliser `Σ loaders' levels · Σ food levels` when rewards are
+normalised, and 0 for every other food.  It never contains a gain.  (The penalty is charged to EVERY agent, also
+to one that did not load: see the witness below.) -/
+theorem lbf_illegal_reward_eq (cfg : Cfg) (s : State) (hw : WF s) (as : List Nat)
+    (hlen : as.length = s.agents.length) (has : ∀ a ∈ as, a < 6) (i : Nat) (hi : i < s.agents.length)
+    (hl : ¬ legal cfg.gridSize s i (as[i]'(by omega))) :
+    ((step cfg s (as.map Int.ofNat)).2.reward).getD i 0 =
+      - ((s.foods.map (charge cfg (step cfg s (as.map Int.ofNat)).1.agents (totalLevel s.foods))).sum) :=
+  illegal_reward_eq cfg s hw as hlen has i hi hl
+
+/-- … hence with a non-negative penalty it is never positive -/
+theorem lbf_illegal_reward_nonpos (cfg : Cfg) (hp : 0 ≤ cfg.penalty) (s : State) (hw : WF s) (as : List Nat)
+    (hlen : as.length = s.agents.length) (has : ∀ a ∈ as, a < 6) (i : Nat) (hi : i < s.agents.length)
+    (hl : ¬ legal cfg.gridSize s i (as[i]'(by omega))) :
+    ((step cfg s (as.map Int.ofNat)).2.reward).getD i 0 ≤ 0 :=
+  illegal_reward_nonpos cfg hp s hw as hlen has i hi hl
+
+/-- the hypotheses are satisfiable; and with penalty ≠ 0 "no reward" is FALSE: agent 0 walks into the wall (illegal),
+agent 1 (level 1) tries to load the level-3 food alone — BOTH are charged the penalty: reward −1 raw, −1/3 normalised
+(the implementation gives `[-1, -1]` resp. `[-0.33333334, -0.33333334]` on this state) -/
+theorem lbf_illegal_penalty_witness :
+    WF ⟨[⟨0, (0, 0), 1, false⟩, ⟨1, (2, 1), 1, false⟩], [⟨0, (2, 2), 3, false⟩], 0⟩ ∧
+    ¬ legal 5 ⟨[⟨0, (0, 0), 1, false⟩, ⟨1, (2, 1), 1, false⟩], [⟨0, (2, 2), 3, false⟩], 0⟩ 0 1 ∧
+    ((step ⟨5, 5, 10, false, false, 1⟩ ⟨[⟨0, (0, 0), 1, false⟩, ⟨1, (2, 1), 1, false⟩], [⟨0, (2, 2), 3, false⟩], 0⟩
+        [1, 5]).2.reward).getD 0 0 = -1 ∧
+    ((step ⟨5, 5, 10, false, true, 1⟩ ⟨[⟨0, (0, 0), 1, false⟩, ⟨1, (2, 1), 1, false⟩], [⟨0, (2, 2), 3, false⟩], 0⟩
+        [1, 5]).2.reward).getD 0 0 = -1 / 3 := by decide +kernel
+
 /-- … and the episode goes on unless there is another cause: a step is LAST only when all food is collected
 or the time limit is reached (for any joint action, legal or not) -/
 theorem lbf_last_only_other_cause (cfg : Cfg) (s : State) (a : List Int)
@@ -73,6 +114,20 @@ theorem lbf_consistent_along (cfg : Cfg) (as : List (List Nat)) (s : State) (hc 
 
 example : Consistent 5 ⟨[⟨0, (1, 1), 1, false⟩, ⟨1, (1, 2), 2, false⟩, ⟨2, (0, 4), 1, true⟩], [⟨0, (2, 2), 3, false⟩], 0⟩ ∧
     WF ⟨[⟨0, (1, 1), 1, false⟩, ⟨1, (1, 2), 2, false⟩, ⟨2, (0, 4), 1, true⟩], [⟨0, (2, 2), 3, false⟩], 0⟩ := by decide
+
+/-- … and every state of the trace `run` (not only the final one) -/
+theorem lbf_run_consistent (cfg : Cfg) (as : List (List Nat)) (s : State) (hc : Consistent cfg.gridSize s) (hw : WF s)
+    (h : ∀ a ∈ as, a.length = s.agents.length ∧ ∀ x ∈ a, x < 6) :
+    ∀ r ∈ run cfg s (as.map (fun a => a.map Int.ofNat)), Consistent cfg.gridSize r.1 ∧ WF r.1 :=
+  run_invariant cfg as s hc hw h
+
+/-- base case for generated instances: every state of every in-spec play from `generate gc d` (any configuration,
+any draw in the samplers' support) is consistent and well-formed -/
+theorem lbf_generated_play_consistent (cfg : Cfg) (gc : GenCfg) (hg : cfg.gridSize = gc.gridSize) (d : GenDraw)
+    (hd : validDraw gc d = true) (as : List (List Nat))
+    (h : ∀ a ∈ as, a.length = gc.numAgents ∧ ∀ x ∈ a, x < 6) :
+    ∀ r ∈ run cfg (generate gc d) (as.map (fun a => a.map Int.ofNat)), Consistent cfg.gridSize r.1 ∧ WF r.1 :=
+  gen_run_invariant cfg gc hg d hd as h
 
 /-- the abstract core: reverting every agent whose moved cell is shared to its old cell yields pairwise
 distinct cells, provided nobody's moved cell is another agent's old cell -/
@@ -110,15 +165,35 @@ theorem lbf_return_is_one (cfg : Cfg) (hn : cfg.normalize = true) (hp : cfg.pena
     (hend : (finalState cfg s as).foods.all (fun f => f.eaten) = true) :
     teamReturn cfg s as = 1 := return_is_one cfg hn hp s as hlv hne hlen h0 hend
 
-/-- shares are proportional to the agents' levels: agent `i`'s part of food `f` is
-`level_i · level_f / (Σ levels of the loading neighbours · Σ all food levels)` when it is a loading neighbour of
-the uneaten food and the food is collected in this step, else 0 -/
-theorem lbf_food_share (cfg : Cfg) (hn : cfg.normalize = true) (hp : cfg.penalty = 0) (T : Int)
+/-- `get_reward_per_food` against the rules, for EVERY normalisation / penalty setting: agent `i`'s entry for food `f`
+is its `share` by the rules (L2: `loaders` = loading agents at distance 1, `collected` = uneaten and the loaders'
+levels reach the food level, `failedAttempt` charged to everybody) -/
+theorem lbf_food_share (cfg : Cfg) (T : Int) (A : List Agent) (hA : ∀ a ∈ A, 1 ≤ a.level) (f : Food)
+    (hf : 1 ≤ f.level) (i : Nat) (hi : i < A.length) :
+    (rewardPerFood cfg T (eatFood A f)).getD i 0 = share cfg A T f A[i] := reward_entry_eq cfg T A hA f hf i hi
+
+/-- explicitly (normalised, no penalty): shares are proportional to the agents' levels — a loading neighbour of a
+food collected in this step gets `level_i · level_f / (Σ loaders' levels · T)`, everybody else 0 -/
+theorem lbf_food_share_formula (cfg : Cfg) (hn : cfg.normalize = true) (hp : cfg.penalty = 0) (T : Int)
+    (A : List Agent) (hA : ∀ a ∈ A, 1 ≤ a.level) (f : Food) (hf : 1 ≤ f.level) (i : Nat) (hi : i < A.length) :
+    (rewardPerFood cfg T (eatFood A f)).getD i 0 =
+      if collected A f ∧ A[i].loading = true ∧ dist A[i].pos f.pos = 1 then
+        ((A[i].level * f.level : Int) : Rat) / (((((loaders A f).map (·.level)).sum * T : Int)) : Rat)
+      else 0 := food_share_formula cfg hn hp T A hA f hf i hi
+
+/-- the same at L1 (in terms of `adjacent` / `adjLevels` of the transliteration) -/
+theorem lbf_food_share_l1 (cfg : Cfg) (hn : cfg.normalize = true) (hp : cfg.penalty = 0) (T : Int)
     (agents : List Agent) (f : Food) (i : Nat) (hi : i < agents.length) :
     (rewardPerFood cfg T (eatFood agents f)).getD i 0 =
       (((if adjacent agents[i].pos f.pos && agents[i].loading && !f.eaten then agents[i].level else 0) *
           (if (eatFood agents f).2.1 then 1 else 0) * f.level : Int) : Rat) /
         (((adjLevels agents f).sum * T : Int) : Rat) := food_share cfg hn hp T agents f i hi
+
+/-- agents of level 1 and 2 load a level-3 food (total food level 4): shares 1·3/(3·4) and 2·3/(3·4) -/
+example : (∀ a ∈ [(⟨0, (1, 2), 1, true⟩ : Agent), ⟨1, (2, 1), 2, true⟩], 1 ≤ a.level) ∧
+    collected [⟨0, (1, 2), 1, true⟩, ⟨1, (2, 1), 2, true⟩] ⟨0, (2, 2), 3, false⟩ ∧
+    rewardPerFood ⟨5, 5, 10, false, true, 0⟩ 4 (eatFood [⟨0, (1, 2), 1, true⟩, ⟨1, (2, 1), 2, true⟩] ⟨0, (2, 2), 3, false⟩)
+      = [1 / 4, 1 / 2] := by decide +kernel
 
 example : teamReturn ⟨5, 5, 10, false, true, 0⟩
     ⟨[⟨0, (1, 2), 1, false⟩, ⟨1, (2, 1), 2, false⟩], [⟨0, (2, 2), 3, false⟩], 0⟩ [[5, 5]] = 1 := by decide +kernel
@@ -167,6 +242,57 @@ theorem lbf_last_iff (cfg : Cfg) (s : State) (a : List Int) :
 theorem lbf_step_count (cfg : Cfg) (s : State) (a : List Int) :
     (step cfg s a).1.stepCount = s.stepCount + 1 := step_count cfg s a
 
+/-! #### whole episodes: `run cfg s as` = the trace of `step` along ANY sequence of joint actions (any lengths, any
+integers) from a state with step count 0 -/
+
+/-- (i) step number `k + 1` has step count `k + 1`, and is LAST exactly when all food is collected by then or `k + 1` has
+reached the time limit -/
+theorem lbf_episode_steps (cfg : Cfg) (s : State) (h0 : s.stepCount = 0) (as : List (List Int)) (k : Nat)
+    (h : k < as.length) :
+    ((run cfg s as)[k]'(by rw [run_length]; exact h)).1.stepCount = (k : Int) + 1 ∧
+    (((run cfg s as)[k]'(by rw [run_length]; exact h)).2.stepType = .last ↔
+      (((run cfg s as)[k]'(by rw [run_length]; exact h)).1.foods.all (fun f => f.eaten) = true ∨
+        cfg.timeLimit ≤ (k : Int) + 1)) := episode_steps cfg s h0 as k h
+
+/-- (ii) in any case there is a LAST at or before step `time_limit`: step number `time_limit` (index `time_limit − 1`)
+is LAST whatever the agents did -/
+theorem lbf_episode_last_at_limit (cfg : Cfg) (hT : 0 < cfg.timeLimit) (s : State) (h0 : s.stepCount = 0)
+    (as : List (List Int)) (hlen : cfg.timeLimit ≤ (as.length : Int)) :
+    ∃ h : (cfg.timeLimit - 1).toNat < (run cfg s as).length,
+      ((run cfg s as)[(cfg.timeLimit - 1).toNat]).2.stepType = .last :=
+  episode_last_at_limit cfg hT s h0 as hlen
+
+theorem lbf_episode_last_by_limit (cfg : Cfg) (hT : 0 < cfg.timeLimit) (s : State) (h0 : s.stepCount = 0)
+    (as : List (List Int)) (hlen : cfg.timeLimit ≤ (as.length : Int)) :
+    ∃ (k : Nat) (h : k < (run cfg s as).length), ((k : Int) + 1 ≤ cfg.timeLimit) ∧
+      ((run cfg s as)[k]).2.stepType = .last := episode_last_by_limit cfg hT s h0 as hlen
+
+/-- (iii) if no other cause of termination occurs (the food is never all collected), the LAST steps are exactly those
+numbered `≥ time_limit`: every step before is MID, so the first LAST is exactly step `time_limit` -/
+theorem lbf_episode_time_limit_only (cfg : Cfg) (s : State) (h0 : s.stepCount = 0) (as : List (List Int))
+    (hfood : ∀ (k : Nat) (h : k < (run cfg s as).length), ((run cfg s as)[k]).1.foods.all (fun f => f.eaten) = false)
+    (k : Nat) (h : k < (run cfg s as).length) :
+    (((run cfg s as)[k]).2.stepType = .last ↔ cfg.timeLimit ≤ (k : Int) + 1) ∧
+    ((k : Int) + 1 < cfg.timeLimit → ((run cfg s as)[k]).2.stepType = .mid) :=
+  episode_time_limit_only cfg s h0 as hfood k h
+
+/-- never earlier without another cause: a LAST before step `time_limit` means all food is collected -/
+theorem lbf_episode_not_earlier (cfg : Cfg) (s : State) (h0 : s.stepCount = 0) (as : List (List Int))
+    (k : Nat) (h : k < (run cfg s as).length) (hk : (k : Int) + 1 < cfg.timeLimit)
+    (hl : ((run cfg s as)[k]).2.stepType = .last) : ((run cfg s as)[k]).1.foods.all (fun f => f.eaten) = true :=
+  episode_not_earlier cfg s h0 as k h hk hl
+
+/-- time limit 3, nobody loads: MID, MID, LAST (and LAST again if one keeps stepping) — first LAST at index 2 -/
+example : (run ⟨5, 5, 3, false, true, 0⟩
+      ⟨[⟨0, (1, 2), 1, false⟩, ⟨1, (2, 1), 2, false⟩], [⟨0, (2, 2), 3, false⟩], 0⟩
+      [[0, 0], [1, 0], [0, 3], [0, 0]]).map (fun r => (r.2.stepType, r.1.foods.all (fun f => f.eaten))) =
+    [(.mid, false), (.mid, false), (.last, false), (.last, false)] := by decide +kernel
+
+/-- same instance, both agents load at once: all food collected, LAST at index 0 < time limit − 1 -/
+example : (run ⟨5, 5, 3, false, true, 0⟩
+      ⟨[⟨0, (1, 2), 1, false⟩, ⟨1, (2, 1), 2, false⟩], [⟨0, (2, 2), 3, false⟩], 0⟩
+      [[5, 5]]).map (fun r => (r.2.stepType, r.1.foods.all (fun f => f.eaten))) = [(.last, true)] := by decide +kernel
+
 /-- the documented exception of C03: the discount is zero exactly when all food is collected; a LAST step
 caused by the time limit alone is a truncation with discount one -/
 theorem lbf_discount (cfg : Cfg) (s : State) (a : List Int) :
@@ -176,8 +302,37 @@ theorem lbf_discount (cfg : Cfg) (s : State) (a : List Int) :
 end Props.C11
 
 namespace Props.C12
-/-- the observation returned by `step` is the observer's function of the successor state (never stale) -/
-theorem lbf_obs_faithful (cfg : Cfg) (s : State) (a : List Int) :
+/-- HEADLINE: for every in-spec joint action from a consistent well-formed state, the observation returned by `step`
+is the DOCUMENTED observation (`observeL2`: views as described in the observers' docstrings, mask = legality by the
+rules, step count) of the successor state -/
+theorem lbf_obs_faithful (cfg : Cfg) (h0 : 0 < cfg.fov) (s : State) (hc : Consistent cfg.gridSize s) (hw : WF s)
+    (as : List Nat) (hlen : as.length = s.agents.length) (has : ∀ a ∈ as, a < 6) :
+    (step cfg s (as.map Int.ofNat)).2.obs = observeL2 cfg (step cfg s (as.map Int.ofNat)).1 :=
+  step_obs_documented cfg h0 s hc hw as hlen has
+
+/-- reset: the first observation is the documented observation of the reset state … -/
+theorem lbf_reset_obs_faithful (cfg : Cfg) (h0 : 0 < cfg.fov) (s : State) (hc : Consistent cfg.gridSize s) (hw : WF s) :
+    (resetTs cfg s).obs = observeL2 cfg s := reset_obs_documented cfg h0 s hc hw
+
+/-- … in particular for every generated instance (no hypothesis on the state left) -/
+theorem lbf_generated_reset_obs_faithful (cfg : Cfg) (h0 : 0 < cfg.fov) (gc : GenCfg) (hg : cfg.gridSize = gc.gridSize)
+    (d : GenDraw) (hd : validDraw gc d = true) :
+    (resetTs cfg (generate gc d)).obs = observeL2 cfg (generate gc d) := gen_reset_obs_documented cfg h0 gc hg d hd
+
+/-- … and along whole plays: every observation of the trace is the documented one of the state it comes with -/
+theorem lbf_run_obs_faithful (cfg : Cfg) (h0 : 0 < cfg.fov) (as : List (List Nat)) (s : State)
+    (hc : Consistent cfg.gridSize s) (hw : WF s) (h : ∀ a ∈ as, a.length = s.agents.length ∧ ∀ x ∈ a, x < 6) :
+    ∀ r ∈ run cfg s (as.map (fun a => a.map Int.ofNat)), r.2.obs = observeL2 cfg r.1 :=
+  run_obs_documented cfg h0 as s hc hw h
+
+example : (0 < (⟨5, 1, 7, true, true, 0⟩ : Cfg).fov) ∧
+    Consistent 5 ⟨[⟨0, (1, 1), 1, false⟩, ⟨1, (1, 2), 2, false⟩], [⟨0, (2, 2), 3, false⟩], 0⟩ ∧
+    WF ⟨[⟨0, (1, 1), 1, false⟩, ⟨1, (1, 2), 2, false⟩], [⟨0, (2, 2), 3, false⟩], 0⟩ ∧
+    ([4, 5] : List Nat).length = 2 ∧ (∀ a ∈ ([4, 5] : List Nat), a < 6) := by decide
+
+/-- the L1 half: the observation returned by `step` is the observer's function of the successor state (never stale),
+for ANY joint action and state -/
+theorem lbf_obs_is_observer_of_successor (cfg : Cfg) (s : State) (a : List Int) :
     (step cfg s a).2.obs = observe cfg (step cfg s a).1 := obs_faithful cfg s a
 
 /-- vector observer: agent `i` sees every food, then itself, then the other agents in order; an entity is
@@ -198,6 +353,82 @@ theorem lbf_observe_documented (cfg : Cfg) (h0 : 0 < cfg.fov) (s : State) (hc : 
 end Props.C12
 
 namespace Props.C10
+/-!
+`generate gc d` = the transliterated `RandomGenerator.__call__` (Model.lean): `gc` = its constructor arguments, `d` = what
+it draws.  `validDraw gc d` = the draw lies in the support of the samplers (every food cell has the bit of the mask
+current at its scan step set; agent cells pairwise distinct — `replace=False` — on set bits of the agent mask; levels
+in `[1, max_agent_level]` resp. `[1, max_food_level]`).  The certificates hold for ALL `gc` and ALL valid draws; the
+constructor's assertions (`GenCfg.Valid`) are not needed for them — they only make sure that the samplers' supports are
+non-empty.  The driver op `lbf.instance` reads the draw off every implementation reset state and checks
+`validDraw` (`draw_in_support`) and `generate gc draw = state` (`generator_matches`).
+-/
+
+theorem lbf_generate_fresh_start (gc : GenCfg) (d : GenDraw) : freshStart (generate gc d) := gen_fresh_start gc d
+
+/-- "no food is placed on the grid's edge" -/
+theorem lbf_generate_foods_interior (gc : GenCfg) (d : GenDraw) (h : validDraw gc d = true) :
+    foodsInterior gc.gridSize (generate gc d) := gen_foods_interior gc d h
+
+/-- "no two food items are adjacent" (nor equal) -/
+theorem lbf_generate_foods_apart (gc : GenCfg) (d : GenDraw) (h : validDraw gc d = true) :
+    foodsApart (generate gc d) := gen_foods_apart gc d h
+
+/-- every food can be collected: its level is at most `max_food_level` = the sum of the three smallest agent levels,
+which is at most the sum of the four largest (four agents fit around an interior food) -/
+theorem lbf_generate_collectable (gc : GenCfg) (d : GenDraw) (h : validDraw gc d = true) :
+    collectable (generate gc d) := gen_collectable gc d h
+
+/-- agents inside the grid on pairwise distinct cells, none on a food; foods inside the grid -/
+theorem lbf_generate_consistent (gc : GenCfg) (d : GenDraw) (h : validDraw gc d = true) :
+    Consistent gc.gridSize (generate gc d) := gen_consistent gc d h
+
+/-- agent `i` has id `i`, all levels ≥ 1 -/
+theorem lbf_generate_wf (gc : GenCfg) (d : GenDraw) (h : validDraw gc d = true) : WF (generate gc d) := gen_wf gc d h
+
+/-- everything at once: fresh start, foods interior and apart, collectable, consistent, well-formed, the counts, food
+ids = indices, agent levels in `[1, max_agent_level]`, food levels in `[1, max_food_level]` and `= max_food_level`
+under `force_coop` -/
+theorem lbf_generate_certificates (gc : GenCfg) (d : GenDraw) (h : validDraw gc d = true) :
+    freshStart (generate gc d) ∧ foodsInterior gc.gridSize (generate gc d) ∧ foodsApart (generate gc d) ∧
+    collectable (generate gc d) ∧ Consistent gc.gridSize (generate gc d) ∧ WF (generate gc d) ∧
+    ((generate gc d).agents.length = gc.numAgents ∧ (generate gc d).foods.length = gc.numFood) ∧
+    (∀ k (hk : k < (generate gc d).foods.length), ((generate gc d).foods[k]).id = (k : Int)) ∧
+    (∀ a ∈ (generate gc d).agents, 1 ≤ a.level ∧ a.level ≤ gc.maxAgentLevel) ∧
+    (∀ f ∈ (generate gc d).foods, 1 ≤ f.level ∧ f.level ≤ maxFoodLevel ((generate gc d).agents.map (·.level)) ∧
+      (gc.forceCoop = true → f.level = maxFoodLevel ((generate gc d).agents.map (·.level)))) :=
+  gen_certificates gc d h
+
+/-- the model's `jnp.sort` (an insertion sort, so that instances evaluate) is the sorted permutation -/
+theorem lbf_sort_is_sort (l : List Int) : sortAsc l = l.mergeSort (fun a b => decide (a ≤ b)) := sortAsc_eq_mergeSort l
+
+/-- a concrete configuration satisfying the constructor's assertions, a draw in the support, and the generated state
+(foods at flat cells 8 = (1, 2) and 22 = (3, 4); agents at 0 = (0, 0) and 9 = (1, 3), next to the first food) -/
+example : (⟨6, 2, 2, 2, false⟩ : GenCfg).Valid ∧
+    validDraw ⟨6, 2, 2, 2, false⟩ ⟨[8, 22], [0, 9], [2, 1], [3, 1]⟩ = true ∧
+    generate ⟨6, 2, 2, 2, false⟩ ⟨[8, 22], [0, 9], [2, 1], [3, 1]⟩ =
+      ⟨[⟨0, (0, 0), 2, false⟩, ⟨1, (1, 3), 1, false⟩], [⟨0, (1, 2), 3, false⟩, ⟨1, (3, 4), 1, false⟩], 0⟩ ∧
+    -- not in the support: second food next to the first / on the edge; an agent on a food; agents on one cell
+    validDraw ⟨6, 2, 2, 2, false⟩ ⟨[8, 14], [0, 9], [2, 1], [3, 1]⟩ = false ∧
+    validDraw ⟨6, 2, 2, 2, false⟩ ⟨[8, 23], [0, 9], [2, 1], [3, 1]⟩ = false ∧
+    validDraw ⟨6, 2, 2, 2, false⟩ ⟨[8, 22], [0, 8], [2, 1], [3, 1]⟩ = false ∧
+    validDraw ⟨6, 2, 2, 2, false⟩ ⟨[8, 22], [9, 9], [2, 1], [3, 1]⟩ = false ∧
+    validDraw ⟨6, 2, 2, 2, false⟩ ⟨[8, 22], [0, 9], [2, 1], [4, 1]⟩ = false := by decide +kernel
+
+/-- generated instances stay consistent under every in-spec play (the generator theorems composed with C07) -/
+theorem lbf_generated_stays_consistent (cfg : Cfg) (gc : GenCfg) (hg : cfg.gridSize = gc.gridSize) (d : GenDraw)
+    (hd : validDraw gc d = true) (as : List (List Nat))
+    (h : ∀ a ∈ as, a.length = gc.numAgents ∧ ∀ x ∈ a, x < 6) :
+    Consistent cfg.gridSize (finalState cfg (generate gc d) (as.map (fun a => a.map Int.ofNat))) ∧
+      WF (finalState cfg (generate gc d) (as.map (fun a => a.map Int.ofNat))) :=
+  gen_final_consistent cfg gc hg d hd as h
+
+/-- … and all four neighbouring cells of every generated food are inside the grid -/
+theorem lbf_generated_food_neighbours_in_grid (gc : GenCfg) (d : GenDraw) (h : validDraw gc d = true) (f : Food)
+    (hf : f ∈ (generate gc d).foods) (a : Nat) (ha1 : 1 ≤ a) (ha4 : a ≤ 4) : inGrid gc.gridSize (addP f.pos (dir a)) :=
+  food_neighbours_in_grid gc.gridSize _ (gen_foods_interior gc d h) f hf a ha1 ha4
+
+/-! the "certificate ⇒ advertised invariant" half (for any state passing the certificates): -/
+
 /-- certificate "food not on the border" ⇒ all four neighbouring cells of every food are inside the grid (so up
 to four agents can stand around it) -/
 theorem lbf_food_neighbours_in_grid (g : Nat) (s : State) (h : foodsInterior g s) (f : Food) (hf : f ∈ s.foods)
@@ -226,11 +457,28 @@ distinct cells (what `RandomGenerator` produces; preserved by every in-spec step
 `fov`, sizes or counts.
 -/
 
-/-- reset: the observation of any state satisfying the invariant with step count 0 lies within `obsBounds` (the
-model has no generator; `resetTs cfg s = restart (observe cfg s)`) -/
+/-- reset: the observation of any state satisfying the invariant with step count 0 lies within `obsBounds`
+(`resetTs cfg s = restart (observe cfg s)`; `lbf_generate_binv` below: every generated state satisfies the invariant) -/
 theorem lbf_reset_obs_in_bounds (cfg : Cfg) (A L : Nat) (s : State) (h : BInv cfg A L s)
     (h0 : s.stepCount = 0) (ht : 0 ≤ cfg.timeLimit) :
     ObsInBounds (obsBounds cfg A L) (resetTs cfg s).obs := reset_obs_in_bounds cfg A L s h h0 ht
+
+/-- the generator establishes the invariant: `generate gc d` satisfies `BInv` with `A = num_agents`,
+`L = max_agent_level` for every valid draw and EVERY number of agents (food level ≤ `min 3 A · L ≤ A · L`) -/
+theorem lbf_generate_binv (cfg : Cfg) (gc : GenCfg) (L : Nat) (hg : cfg.gridSize = gc.gridSize)
+    (hL : gc.maxAgentLevel = (L : Int)) (d : GenDraw) (h : validDraw gc d = true) :
+    BInv cfg gc.numAgents L (generate gc d) := gen_binv cfg gc L hg hL d h
+
+/-- … so the reset observation of every generated instance lies within `obsBounds` (no hypothesis on the state) -/
+theorem lbf_generated_reset_obs_in_bounds (cfg : Cfg) (gc : GenCfg) (L : Nat) (hg : cfg.gridSize = gc.gridSize)
+    (hL : gc.maxAgentLevel = (L : Int)) (d : GenDraw) (h : validDraw gc d = true) (ht : 0 ≤ cfg.timeLimit) :
+    ObsInBounds (obsBounds cfg gc.numAgents L) (resetTs cfg (generate gc d)).obs :=
+  reset_obs_in_bounds cfg gc.numAgents L _ (gen_binv cfg gc L hg hL d h) (gen_fresh_start gc d).1 ht
+
+/-- the hypotheses of `lbf_reset_obs_in_bounds` instantiated by a generated state -/
+example : BInv ⟨6, 2, 7, true, true, 0⟩ 2 2 (generate ⟨6, 2, 2, 2, false⟩ ⟨[8, 22], [0, 9], [2, 1], [3, 1]⟩) ∧
+    (generate ⟨6, 2, 2, 2, false⟩ ⟨[8, 22], [0, 9], [2, 1], [3, 1]⟩).stepCount = 0 ∧
+    (0 : Int) ≤ (⟨6, 2, 7, true, true, 0⟩ : Cfg).timeLimit := by decide +kernel
 
 /-- every step before the time limit is reached — including the one that reaches it (`step_count = time_limit`)
 and the one that collects the last food — emits an observation within `obsBounds`, for every in-spec joint action -/
